@@ -104,6 +104,15 @@ func newEvWriter(dir string, chunk int) *evWriter {
 	return w
 }
 
+// Inflight records the case that is about to run.  If the process dies in it (a fatal error of
+// the Go runtime - stack overflow, concurrent map writes - cannot be recovered), the file names
+// the case; Close removes it.
+func (w *evWriter) Inflight(c any) {
+	b, err := json.Marshal(c)
+	must(err)
+	must(os.WriteFile(filepath.Join(w.dir, "inflight.json"), b, 0o644))
+}
+
 func (w *evWriter) roll() {
 	w.closeFiles()
 	w.idx++
@@ -188,7 +197,10 @@ func (w *evWriter) Emit(ev any, cs any) {
 	}
 }
 
-func (w *evWriter) Close() { w.closeFiles() }
+func (w *evWriter) Close() {
+	w.closeFiles()
+	_ = os.Remove(filepath.Join(w.dir, "inflight.json"))
+}
 
 // ---------- stats ----------
 
